@@ -355,6 +355,19 @@ func runC14(c *fw.Ctx) {
 								return
 							}
 						}
+						if k.Rng.Intn(3) == 0 && cname != "subnormal" && cname != "huge" { // the layer is applied to ITS OWN latest output (a second normalisation, a stacked use of one object)
+							want2, _ := ref.Apply(sp.in, []*ref.T{want})
+							var y2 tensor.Tensor
+							if p := call(func() { y2, err = obj.Forward(y) }); p != nil || err != nil || y2 == nil {
+								k.Failf("%s applied to its own latest output (shape %v): panic=%v err=%v", sp.name, shape, p, err)
+								return
+							}
+							if e := rt.Compare(y2, want2, 1e-300, 1e-11, nil, 0); e != nil {
+								k.Failf("%s applied to its own latest output (shape %v) [%s]: %v", sp.name, shape, cname, e)
+								return
+							}
+							k.Count("layers_applied_to_their_own_latest_output", 1)
+						}
 						if sp.in.Op == "softmax" {
 							got, _ := rt.Read(y)
 							sums, _ := got.Along(ref.SSum, sp.in.Dim)
